@@ -173,6 +173,25 @@ def _compile_inproc(src, opt):
     return res.IRModule, "ok"
 
 
+_store_checked = {"ok": False}
+
+
+def _check_own_store(path):
+    """A module file the harness wrote itself (pickle, as nslc.py does) must be readable by the
+    product's loader; otherwise the stored format has changed and the harness is out of date."""
+    if _store_checked["ok"]:
+        return
+    from nsl import LinearIR
+
+    try:
+        LinearIR.FilesystemModuleLoader().Load(path)
+    except Exception as e:
+        raise core.HarnessError(
+            f"a module stored by the harness with pickle is not loadable by the product's loader "
+            f"({type(e).__name__}: {e}); the stored-module format seems to have changed")
+    _store_checked["ok"] = True
+
+
 def _run_child(argv, cwd, hs, tree, timeout=90):
     env = repo.child_env(tree, hs)
     try:
@@ -351,6 +370,7 @@ def _execute(sc, root, want_texts):
                     else:
                         with open(os.path.join(store, name), "wb") as f:
                             f.write(data)
+                        _check_own_store(os.path.join(store, name))
                 bump("writes_inproc")
                 log.add("write", name=name, src=sd, opt=opt, how="inproc", ok=ok)
                 code, err = (0 if ok else 1), status
@@ -549,6 +569,7 @@ def _nslr_reads(sc, st, si, plan_names, model, store, cwd, tree, log, bump):
         fresh = os.path.join(store, "FreshReference__.nslir")
         with open(fresh, "wb") as f:
             pickle.dump(m, f)
+        _check_own_store(fresh)
         fresh_rel = fresh if cwd == store else os.path.join("..", "store", "FreshReference__.nslir")
         try:
             for fname in sorted(m.Functions):
@@ -562,9 +583,17 @@ def _nslr_reads(sc, st, si, plan_names, model, store, cwd, tree, log, bump):
                 outs = []
                 for target in (rel, fresh_rel):
                     code, out, err = _run_child([tool, "run", target, fname] + args, cwd, st["hs"], tree)
+                    if code is None:
+                        raise core.HarnessError(f"nslr.py did not finish within its time limit (step {si}, {target})")
                     lines = [l for l in (out or "").splitlines() if l.strip()]
                     if code == 0:
-                        outs.append(["ok", lines[-1] if lines else ""])
+                        last = lines[-1] if lines else ""
+                        # the two commands differ in their MODULE argument only
+                        for tok in sorted({target, os.path.basename(target), os.path.splitext(os.path.basename(target))[0],
+                                           os.path.abspath(os.path.join(cwd, target))}, key=len, reverse=True):
+                            if tok:
+                                last = last.replace(tok, "<MODULE>")
+                        outs.append(["ok", last])
                     else:
                         last = (err or "").strip().splitlines()[-1] if (err or "").strip() else ""
                         outs.append(["fail", last.split(":")[0].split(".")[-1]])
